@@ -13,9 +13,14 @@ import FgaVerif.Props.C07
     * `failure_order_independent` — hence a set that fails in one order fails in every order, with a
       non-empty error list and never a model.
 
-    Not proved: that on success a permutation changes nothing but the order of the type definitions,
-    and that the error *list* of a permuted input is a permutation of the original one; both are
-    evaluated on the real code over all permutations of up to four files (thorough tier). -/
+    * `result_order_independent` — on success the two results have the same type names up to order,
+      the same condition names, the same schema version, and bind every relation of every type to the
+      same rewrite (from `merge_conserves_names` / `merge_conserves_rewrites` of C07): a permutation
+      changes nothing but the order of the type definitions, as far as names and rewrites go.
+
+    Not proved: the same for metadata (attribution) and condition bodies, and that the error *list* of a
+    permuted input is a permutation of the original one; both are evaluated on the real code over all
+    permutations of up to four files (thorough tier). -/
 namespace FgaVerif.Props.C12
 open FgaVerif.Model FgaVerif.Model.Merge FgaVerif.Props.C07
 
@@ -35,6 +40,37 @@ theorem failure_order_independent {fs fs' : List FileIn} (v : String) (hp : fs.P
   · exact absurd hok hno
   · exact ⟨es', h1, h2⟩
   · exact absurd hp' (merge_no_panic fs' v (filesWF_perm hp wf) hnp' p)
+
+/-- **on success a permutation of the files changes nothing but the order of the type definitions**
+    (as far as names and rewrites go): the two results have the same type names up to order, the same
+    condition names, and bind every relation of every type to the same rewrite -/
+theorem result_order_independent {fs fs' : List FileIn} (v : String) (hp : fs.Perm fs') (wf : FilesWF fs)
+    (m m' : Model) (h : merge fs v = .ok m) (h' : merge fs' v = .ok m') :
+    (m.types.map (·.name)).Perm (m'.types.map (·.name)) ∧
+    (∀ x, x ∈ AList.keys m.conds ↔ x ∈ AList.keys m'.conds) ∧
+    (∀ n k, valNow m.types n k = valNow m'.types n k) ∧ m.schema = m'.schema := by
+  have wf' := filesWF_perm hp wf
+  obtain ⟨a1, a2, _⟩ := merge_conserves_names fs v wf m h
+  obtain ⟨b1, b2, _⟩ := merge_conserves_names fs' v wf' m' h'
+  refine ⟨?_, ?_, ?_, ?_⟩
+  · rw [a1, b1]; exact hp.flatMap_right _
+  · intro x; rw [a2 x, b2 x]; exact (hp.flatMap_right _).mem_iff
+  · intro n k
+    have key : ∀ v', valNow m.types n k = some v' ↔ valNow m'.types n k = some v' := by
+      intro v'
+      rw [merge_conserves_rewrites fs v wf m h n k v', merge_conserves_rewrites fs' v wf' m' h' n k v']
+      have hperm : (fs.flatMap fileBaseDefs ++ fs.flatMap fileExtDefs).Perm
+          (fs'.flatMap fileBaseDefs ++ fs'.flatMap fileExtDefs) := (hp.flatMap_right _).append (hp.flatMap_right _)
+      constructor
+      · rintro ⟨d, hd, r⟩; exact ⟨d, hperm.mem_iff.1 hd, r⟩
+      · rintro ⟨d, hd, r⟩; exact ⟨d, hperm.mem_iff.2 hd, r⟩
+    cases hv : valNow m.types n k with
+    | none =>
+      cases hv' : valNow m'.types n k with
+      | none => rfl
+      | some w => exact absurd ((key w).2 hv') (by simp [hv])
+    | some w => exact ((key w).1 hv).symm
+  · rw [merge_schema fs v m h, merge_schema fs' v m' h']
 
 /-- the examples of Props/C07 exhibit both verdicts under both orders -/
 example : isOk (merge [core, extOk] "1.2") = isOk (merge [extOk, core] "1.2") := by decide
